@@ -23,18 +23,55 @@ def half_period(sys_f, uart_f):
     return int(sys_f / (2 * uart_f))
 
 
-def build_link(sys_f, uart_f=1):
+def build_link(sys_f, uart_f=1, hist=None):
+    """the link, built along a construction history:
+    hist = {'depth': 0|1|2 (flat in the HWSystem / inside a structural container block / inside two nested ones),
+            'order': a permutation of 'scd' (serializer, clock generation+recovery, deserializer),
+            'events': {position 0..3: [kinds]}  what happens before the first / after the j-th block is constructed:
+                      'sim' = hw.getSimulator(); 'scope' = py4hw.Scope on tx (its constructor obtains the simulator);
+                      'wave' = a Waveform probe on tx; 'clk' = getSimulator().clk(2) on the partially built design}
+    None = the flat link, built completely before the first getSimulator()."""
     py4hw = common.quiet_import()
     from py4hw.logic.protocol.uart.serdes import UARTSerializer, UARTDeserializer
     from py4hw.logic.protocol.uart.clock import ClockGenerationAndRecovery
+    hist = hist or {'depth': 0, 'order': 'cds', 'events': {}}
+    events = {int(k): v for k, v in hist.get('events', {}).items()}
     with quiet():
         hw = py4hw.HWSystem()
         W = {'s_ready': hw.wire('s_ready'), 's_valid': hw.wire('s_valid'), 's_v': hw.wire('s_v', 8), 'tx': hw.wire('tx'),
-             'pulse': hw.wire('pulse'), 'sample': hw.wire('sample'), 'desync': hw.wire('desync'),
              'd_ready': hw.wire('d_ready'), 'd_valid': hw.wire('d_valid'), 'd_v': hw.wire('d_v', 8)}
-        ClockGenerationAndRecovery(hw, 'uart_clock', W['tx'], W['desync'], W['pulse'], W['sample'], sys_f, uart_f)
-        UARTDeserializer(hw, 'des', W['tx'], W['sample'], W['d_ready'], W['d_valid'], W['d_v'], W['desync'])
-        UARTSerializer(hw, 'ser', W['s_ready'], W['s_valid'], W['s_v'], W['pulse'], W['tx'])
+        nprobe = [0]
+
+        def event(parent, j):
+            for kind in events.get(j, []):
+                nprobe[0] += 1
+                if kind == 'sim': hw.getSimulator()
+                elif kind == 'clk': hw.getSimulator().clk(2)
+                elif kind == 'scope': py4hw.Scope(parent, 'probe%d' % nprobe[0], [W['tx']])
+                elif kind == 'wave': py4hw.Waveform(parent, 'wave%d' % nprobe[0], [W['tx']])
+                else: raise ValueError(kind)
+
+        def populate(parent):
+            for nm in ('pulse', 'sample', 'desync'):
+                W[nm] = parent.wire(nm)
+            event(parent, 0)
+            for j, ch in enumerate(hist.get('order', 'cds')):
+                if ch == 'c': ClockGenerationAndRecovery(parent, 'uart_clock', W['tx'], W['desync'], W['pulse'], W['sample'], sys_f, uart_f)
+                elif ch == 'd': UARTDeserializer(parent, 'des', W['tx'], W['sample'], W['d_ready'], W['d_valid'], W['d_v'], W['desync'])
+                elif ch == 's': UARTSerializer(parent, 'ser', W['s_ready'], W['s_valid'], W['s_v'], W['pulse'], W['tx'])
+                else: raise ValueError(ch)
+                event(parent, j + 1)
+
+        class Box(py4hw.Logic):                    # a structural container: the link (or another container) lives inside it
+            def __init__(self, parent, name, depth):
+                super().__init__(parent, name)
+                self.addOut('s_ready', W['s_ready']); self.addIn('s_valid', W['s_valid']); self.addIn('s_v', W['s_v'])
+                self.addIn('d_ready', W['d_ready']); self.addOut('d_valid', W['d_valid']); self.addOut('d_v', W['d_v']); self.addOut('tx', W['tx'])
+                if depth > 1: Box(self, 'inner', depth - 1)
+                else: populate(self)
+
+        if hist.get('depth', 0) == 0: populate(hw)
+        else: Box(hw, 'loop', hist['depth'])
         sim = hw.getSimulator()
     return hw, W, sim
 
@@ -67,7 +104,7 @@ def drive(scen, with_dump=False):
     sys_f, uart_f = scen['sys_f'], scen.get('uart_f', 1)
     n = half_period(sys_f, uart_f); P = 2 * n
     rng = random.Random(scen.get('seed', 0))
-    hw, W, sim = build_link(sys_f, uart_f)
+    hw, W, sim = build_link(sys_f, uart_f, scen.get('hist'))
     dp = netlist.Dump(hw) if with_dump else None
     rdy = ready_fn(scen['pacing'], P, rng)
     data, gaps = scen['bytes'], scen['gaps']
@@ -148,7 +185,7 @@ def drive_checked(ctx, scen, with_dump=False):
         return drive(scen, with_dump)
     except Exception as ex:
         import traceback
-        ctx.violation(dict({k: scen[k] for k in ('sys_f', 'uart_f', 'bytes', 'gaps', 'early', 'pacing', 'seed', 'tail', 'max_cycles') if k in scen},
+        ctx.violation(dict({k: scen[k] for k in ('sys_f', 'uart_f', 'bytes', 'gaps', 'early', 'pacing', 'seed', 'tail', 'max_cycles', 'hist') if k in scen},
                            what='the link cannot be built / simulated at this legal ratio: %s: %s' % (type(ex).__name__, ex),
                            traceback=traceback.format_exc()[-1500:], stage='build'))
         return None
@@ -159,7 +196,7 @@ def judge(ctx, scen, res):
     P = res['P']
     acc = [b for _, b in res['accepted']]; dlv = [b for _, b in res['delivered']]
     tx = [o[0] for o in res['obs']]
-    key = {k: scen[k] for k in ('sys_f', 'uart_f', 'bytes', 'gaps', 'early', 'pacing', 'seed', 'tail', 'max_cycles') if k in scen}
+    key = {k: scen[k] for k in ('sys_f', 'uart_f', 'bytes', 'gaps', 'early', 'pacing', 'seed', 'tail', 'max_cycles', 'hist') if k in scen}
     # (1) the line is 8N1: the independent receiver sees exactly the accepted bytes (those whose frame ended inside the record)
     rx, errs = sw_receiver(tx, P)
     rxb = [b for _, b in rx]
@@ -376,6 +413,30 @@ def scenarios(ctx, rng, ratios, n_bytes_each, gap_kinds, full_bytes_ratio=None):
     return out
 
 
+def history_scenarios(rng, ratios, count):
+    """construction-history families: container depth x order of the three blocks x what happens between their constructions"""
+    import itertools
+    orders = [''.join(p) for p in itertools.permutations('scd')]
+    out = []
+    for j in range(count):
+        ratio = ratios[j % len(ratios)]; P = 2 * half_period(ratio, 1)
+        depth = (j + j // 3) % 3
+        order = orders[(j * 5 + j // 6) % 6]
+        kinds = ['scope', 'sim', 'wave', 'clk']
+        events = {}
+        for pos in rng.sample([0, 1, 2, 3], rng.choice([1, 1, 2])):
+            events[str(pos)] = [kinds[(j + pos) % 4]] if rng.random() < 0.8 else [rng.choice(kinds), rng.choice(kinds)]
+        data = [rng.randrange(256) for _ in range(3)]
+        out.append({'sys_f': ratio, 'uart_f': 1, 'bytes': data, 'gaps': [rng.choice([0, 1, P]) for _ in data], 'early': bool(j % 2),
+                    'pacing': [('always',), ('random', 0.5), ('every', max(2, P), 1)][j % 3], 'seed': rng.randrange(1 << 30), 'tail': 4 * P,
+                    'hist': {'depth': depth, 'order': order, 'events': events}})
+    return out
+
+
+def has_preclk(scen):
+    return any('clk' in v for v in (scen.get('hist') or {}).get('events', {}).values())
+
+
 def sweep(ctx, scens, tag, ties, with_model=True, chunk=40):
     """run the real link on every scenario; oracle per run (False = a spec violation with its input was reported);
     then the hand model in Coq on the same inputs (in chunks); a model mismatch is appended to `ties`."""
@@ -387,7 +448,7 @@ def sweep(ctx, scens, tag, ties, with_model=True, chunk=40):
         for (t, b), g in zip(res['accepted'], scen['gaps']):
             ctx.count(('byte', scen['sys_f'], b, min(g, 3 * P + 1), scen['pacing'][0]))
         ctx.count(None, n=len(res['ins']) - len(res['accepted']), nontrivial=False)
-        done.append((scen, res))
+        if not has_preclk(scen): done.append((scen, res))       # the model starts at power-up: runs clocked while half built are oracle-only
         if len(done) <= 2:
             ctx.sample({'sys_clocks_per_bit': scen['sys_f'], 'bit_period_P': P, 'bytes': scen['bytes'][:6], 'gaps': scen['gaps'][:6], 'pacing': scen['pacing'],
                         'accepted': res['accepted'][:4], 'delivered': res['delivered'][:4], 'tx_first_60': ''.join(str(o[0]) for o in res['obs'][:60])})
@@ -438,12 +499,14 @@ def run(ctx):
         big = [18, 20, 22, 23, 29, 34, 40, 47]
         for j, ra in enumerate(big):                      # the slow ratios: two bytes, one gap family each (rotating with the seed)
             scens += scenarios(ctx, rng, [ra], 2, [['b2b', 'small', 'upto3P'][(j + ctx.seed) % 3]])
+        scens += history_scenarios(rng, [4, 10, 16], 18)
         kern = [{'sys_f': 4, 'uart_f': 1, 'bytes': [0xA5, 0x3C], 'gaps': [0, 2], 'early': True, 'pacing': ('every', 3, 1), 'seed': 1, 'tail': 8},
                 {'sys_f': 7, 'uart_f': 1, 'bytes': [0x81], 'gaps': [3], 'early': False, 'pacing': ('random', 0.4), 'seed': 2, 'tail': 8}]
         nblk = 300
     else:
         ratios = list(range(4, 49)) + [63, 64, 65, 66, 70, 96, 130]
         scens = scenarios(ctx, rng, ratios, 10, ['b2b', 'small', 'upto3P', 'long'], full_bytes_ratio=[4, 5, 6, 7, 8, 13, 21, 40])
+        scens += history_scenarios(rng, [4, 5, 7, 10, 16, 22], 144)
         scens.append({'sys_f': 50e6, 'uart_f': 115200, 'bytes': [0x5A, 0xC3], 'gaps': [0, 100], 'early': True, 'pacing': ('random', 0.01), 'seed': 3, 'tail': 500})
         kern = [{'sys_f': ra, 'uart_f': 1, 'bytes': [rng.randrange(256) for _ in range(2)], 'gaps': [0, rng.randrange(3 * ra)], 'early': bool(ra % 2),
                  'pacing': pc, 'seed': ra, 'tail': 8} for ra, pc in ((4, ('always',)), (5, ('every', 3, 1)), (6, ('random', 0.3)), (9, ('burst', 40, 2, 7)), (16, ('random', 0.2)))]
@@ -480,6 +543,7 @@ def run(ctx):
     if ok and (ties or not tie_ok):
         # a proof obligation, the translation or a correspondence broke and the sweep above found no failing input: widen the search, then report
         wide = scenarios(ctx, random.Random(ctx.seed + 99), list(range(4, 49)) + [66, 70, 90, 130], 2, ['b2b', 'upto3P'], full_bytes_ratio=[6])
+        wide += history_scenarios(random.Random(ctx.seed + 77), [4, 6, 10, 16], 48)
         if not sweep(ctx, wide, 'C17_wide', ties, with_model=False): return
         if missing:
             ctx.violation({'what': 'translator rejected %s: %s' % (missing, {k: ctx.gen['errors'].get(k) for k in missing})}, found_input=False)
@@ -500,7 +564,7 @@ def replay(rp):
         print('replay: this file records a broken proof obligation / correspondence, not a link stimulus:')
         print({k: rp[k] for k in rp if k in ('what', 'theorem', 'file', 'coq_error', 'cycle', 'parameter', 'scenario')})
         return 0
-    scen = {k: rp[k] for k in ('sys_f', 'uart_f', 'bytes', 'gaps', 'early', 'pacing', 'seed', 'tail', 'max_cycles') if k in rp}
+    scen = {k: rp[k] for k in ('sys_f', 'uart_f', 'bytes', 'gaps', 'early', 'pacing', 'seed', 'tail', 'max_cycles', 'hist') if k in rp}
     scen['pacing'] = tuple(scen['pacing'])
     res = drive(scen)
     acc = [b for _, b in res['accepted']]; dlv = [b for _, b in res['delivered']]
